@@ -54,7 +54,7 @@ def parseTables : List String → Option (IPText × List String)
     | "pt" :: m :: ts => do
       let m ← m.toNat?
       let (pt, ts) ← parseOptPairs m ts
-      pure (⟨tblText t6, tblParse pt⟩, ts)
+      pure (⟨dotted, tblText t6, tblParse pt⟩, ts)
     | _ => none
   | _ => none
 
